@@ -6,6 +6,16 @@ ids = sys.argv[1:] or sorted(os.listdir(os.path.join(ROOT, "seeded")))
 ids = [i for i in ids if os.path.isdir(os.path.join(ROOT, "seeded", i))]
 resp = os.path.join(ROOT, "seeded", "RESULTS.json")
 res = json.load(open(resp)) if os.path.exists(resp) else {}
+import shutil, tempfile
+evid = os.path.join(ROOT, "evidence")
+bak = tempfile.mkdtemp(prefix="evidence.bak.")
+shutil.copytree(evid, os.path.join(bak, "evidence"))
+import atexit
+def restore():
+    shutil.rmtree(evid, ignore_errors=True)
+    shutil.copytree(os.path.join(bak, "evidence"), evid)
+    shutil.rmtree(bak, ignore_errors=True)
+atexit.register(restore)
 for sid in ids:
     d = os.path.join(ROOT, "seeded", sid)
     prop = json.load(open(os.path.join(d, "meta.json")))["property"]
